@@ -81,6 +81,8 @@ CHECKS = {
          "what -c prints after a runtime error or when the last statement is not an expression statement is don't-care", "DESIGN.md §4 C24"),
 }
 
+FUZZ = {"C01", "C08", "C12", "C16", "C18", "C19"}
+
 NOT_APPLICABLE = {
 }
 
@@ -101,7 +103,7 @@ def main():
             "engine": engine,
             "level_claimed": {"category": "exploration", "text": text, "design_ref": ref},
             "level_note": note,
-            "technique": tech,
+            "technique": tech + ("; the thorough tier adds a coverage-guided libFuzzer stage (harness/fuzz target %s, judged by the same oracle)" % pid.lower() if pid in FUZZ else ""),
         })
     na = []
     for p in props:
